@@ -1,0 +1,90 @@
+//! Verification hooks, compiled only with the cargo feature `verif-hooks`.
+//!
+//! Nothing in here is part of the public API of the crate. The module only
+//! adds observation points: a thread-local recorder for the pointer values
+//! formed by the mutable vector iterators, and `pub` wrappers around a few
+//! `pub(crate)` kernel functions so that an external harness can call them.
+
+use crate::error::Result;
+use crate::index::{AxisIndex, Index, WrappingIndex};
+use crate::order::Order;
+use crate::shape::{AxisShape, Shape};
+use crate::Matrix;
+use std::cell::RefCell;
+
+thread_local! {
+    static PTR_EVENTS: RefCell<Option<Vec<(u8, usize)>>> = const { RefCell::new(None) };
+}
+
+/// Starts recording pointer events on this thread.
+pub fn start_ptr_recording() {
+    PTR_EVENTS.with(|events| *events.borrow_mut() = Some(Vec::new()));
+}
+
+/// Stops recording and returns the recorded `(site, address)` events.
+pub fn take_ptr_events() -> Vec<(u8, usize)> {
+    PTR_EVENTS.with(|events| events.borrow_mut().take().unwrap_or_default())
+}
+
+/// Records that a pointer with address `addr` was formed at `site`.
+pub fn record_ptr(site: u8, addr: usize) {
+    PTR_EVENTS.with(|events| {
+        if let Some(events) = events.borrow_mut().as_mut() {
+            events.push((site, addr));
+        }
+    });
+}
+
+fn axis_shape(order: Order, major: usize, minor: usize) -> AxisShape {
+    match order {
+        Order::RowMajor => Shape::new(major, minor),
+        Order::ColMajor => Shape::new(minor, major),
+    }
+    .to_axis_shape_unchecked(order)
+}
+
+/// `Matrix::<T>::check_size`.
+pub fn check_size<T>(size: usize) -> Result<usize> {
+    Matrix::<T>::check_size(size)
+}
+
+/// `Shape::try_to_axis_shape`, returning `(major, minor)`.
+pub fn try_to_axis_shape(nrows: usize, ncols: usize, order: Order) -> Result<(usize, usize)> {
+    let shape = Shape::new(nrows, ncols).try_to_axis_shape(order)?;
+    Ok((shape.major(), shape.minor()))
+}
+
+/// `AxisIndex::from_wrapping_index`, returning `(major, minor)`.
+pub fn from_wrapping_index(
+    row: isize,
+    col: isize,
+    order: Order,
+    major: usize,
+    minor: usize,
+) -> (usize, usize) {
+    let shape = axis_shape(order, major, minor);
+    let index = AxisIndex::from_wrapping_index(WrappingIndex::new(row, col), order, shape);
+    (index.major, index.minor)
+}
+
+/// `Index::from_flattened`, returning `(row, col)`.
+pub fn index_from_flattened(index: usize, order: Order, major: usize, minor: usize) -> (usize, usize) {
+    let index = Index::from_flattened(index, order, axis_shape(order, major, minor));
+    (index.row, index.col)
+}
+
+/// `Index::to_flattened`.
+pub fn index_to_flattened(row: usize, col: usize, order: Order, major: usize, minor: usize) -> usize {
+    Index::new(row, col).to_flattened(order, axis_shape(order, major, minor))
+}
+
+/// The raw parts of a matrix: `(order, major, minor, buffer address, length)`.
+pub fn raw_parts<T>(matrix: &Matrix<T>) -> (Order, usize, usize, usize, usize) {
+    (
+        matrix.order,
+        matrix.shape.major(),
+        matrix.shape.minor(),
+        matrix.data.as_ptr() as usize,
+        matrix.data.len(),
+    )
+}
